@@ -411,6 +411,18 @@ pub fn emit(parsed: &BTreeMap<String, syn::File>) -> (String, Value) {
         s.push_str(&format!("  ]⟩{}\n", if i + 1 < types.len() { "," } else { "" }));
     }
     s.push_str("]\n\n");
+    // the bare shape of every type, as numbers only: (type, [(variant, [(field name, field type)])]) - what the
+    // hand-written models (wire format, reducer, traversals) are written against
+    s.push_str("/-- The shape of the IR types as keys only: per type, its variants in declaration order, each with its\nfields' (name, type) keys in declaration order. Compared with the reviewed snapshot by `Tie.ir_shape_as_modelled`. -/\ndef shape : List (Nat × List (Nat × List (Nat × Nat))) := [\n");
+    for (i, t) in types.iter().enumerate() {
+        let vs: Vec<String> = t
+            .variants
+            .iter()
+            .map(|v| format!("({}, [{}])", key(&v.name), v.fields.iter().map(|f| format!("({}, {})", key(&f.name), key(&f.ty))).collect::<Vec<_>>().join(", ")))
+            .collect();
+        s.push_str(&format!("  ({}, [{}]){}  -- {}\n", key(&t.name), vs.join(", "), if i + 1 < types.len() { "," } else { "" }, t.name));
+    }
+    s.push_str("]\n\n");
     s.push_str("/-- One arm of the `match self` of a traversal method: the variant it is for, how many of its\npattern positions are bound to a name, how many of those names the arm's body mentions, and\nwhether it ignores positions (`_`, `..`). -/\nstructure GArm where\n  variantKey : Nat\n  variant : String\n  bound : Nat\n  used : Nat\n  ignores : Bool\n\nstructure GMethod where\n  typeKey : Nat\n  ty : String\n  trait_ : String\n  methodKey : Nat\n  method : String\n  selfFieldKeys : List Nat\n  selfFields : List String\n  arms : List GArm\n\n");
     s.push_str("def traversals : List GMethod := [\n");
     for (i, m) in methods.iter().enumerate() {
